@@ -7,39 +7,89 @@ From Raven Require Import Base.GoStr Base.GoStrFacts Base.GoStrZ Model.SeqSet Mo
 Import ListNotations.
 Local Open Scope Z_scope.
 
-(** ---- plain COPY ---- *)
-Definition up_ok (x lo : ascii) (a : ascii) : bool :=
-  negb (Ascii.eqb (upper_c a) x) || Ascii.eqb a x || Ascii.eqb a lo.
-
-Lemma upper_inv (x lo : ascii) : (forall a, up_ok x lo a = true) ->
-  forall a, upper_c a = x -> a = x \/ a = lo.
+(** ---- plain COPY (after fix F1: the dispatcher passes parts[1:]) ---- *)
+Theorem plain_copy_set_exact : forall (tag w mbox : str) (rest : list str) (s : seqset) (total : Z),
+  wf s = true -> in64 total ->
+  match plain_copy (tag :: w :: print s :: mbox :: rest) total with
+  | None => addressed s total = []                      (* BAD only when nothing is addressed *)
+  | Some l => forall i, In i l <-> In i (addressed s total)
+  end.
 Proof.
-  intros K a E. specialize (K a). unfold up_ok in K. rewrite E, Ascii.eqb_refl in K. simpl in K.
-  apply orb_true_iff in K. destruct K as [K|K]; apply Ascii.eqb_eq in K; auto.
+  intros tag w mbox rest s total H Ht. unfold plain_copy, dispatch_copy_args, copy_set_arg.
+  cbn [tl length Nat.ltb Nat.leb nth_error].
+  destruct (parse_seqset_db (print s) total) as [|x l] eqn:P.
+  - destruct (addressed s total) as [|y r] eqn:A; [reflexivity|]. exfalso.
+    assert (K : In y (parse_seqset_db (print s) total)) by (apply store_set_exact; auto; rewrite A; now left).
+    rewrite P in K. contradiction.
+  - intros i. rewrite <- P. now apply store_set_exact.
 Qed.
 
-Lemma up_C : forall a, up_ok "C" "c" a = true. Proof. ascii_sweep (up_ok "C" "c"). Qed.
-Lemma up_O : forall a, up_ok "O" "o" a = true. Proof. ascii_sweep (up_ok "O" "o"). Qed.
-Lemma up_P : forall a, up_ok "P" "p" a = true. Proof. ascii_sweep (up_ok "P" "p"). Qed.
-Lemma up_Y : forall a, up_ok "Y" "y" a = true. Proof. ascii_sweep (up_ok "Y" "y"). Qed.
-
-Lemma copy_word_parse w total : equal_fold w (S_ "COPY") = true -> parse_seqset_db w total = [].
+(** ---- FETCH n (after the fix: numbered from n, n < 1 is BAD) ---- *)
+Lemma filter_eq_zseq k : forall cnt lo,
+  filter (fun i => i =? k) (zseq lo cnt) = if (lo <=? k) && (k <? lo + Z.of_nat cnt) then [k] else [].
 Proof.
-  intros H. unfold equal_fold in H. apply str_eqb_eq in H.
-  change (to_upper (S_ "COPY")) with (S_ "COPY") in H.
-  destruct w as [|a [|b [|c [|d [|e w]]]]]; try discriminate H.
-  injection H as Ha Hb Hc Hd.
-  unfold parse_seqset_db. destruct (total =? 0); [reflexivity|].
-  destruct (upper_inv _ _ up_C a Ha) as [->| ->], (upper_inv _ _ up_O b Hb) as [->| ->],
-           (upper_inv _ _ up_P c Hc) as [->| ->], (upper_inv _ _ up_Y d Hd) as [->| ->]; reflexivity.
+  induction cnt as [|c IH]; intros lo.
+  - simpl. replace (k <? lo + 0) with (k <? lo) by (f_equal; lia).
+    destruct (lo <=? k) eqn:A, (k <? lo) eqn:B; try reflexivity.
+    apply Z.leb_le in A. apply Z.ltb_lt in B. lia.
+  - cbn [zseq filter]. rewrite IH. rewrite Nat2Z.inj_succ.
+    destruct (lo =? k) eqn:E.
+    + apply Z.eqb_eq in E. subst lo.
+      replace (k + 1 <=? k) with false by (symmetry; apply Z.leb_gt; lia).
+      replace (k <=? k) with true by (symmetry; apply Z.leb_le; lia).
+      replace (k <? k + Z.succ (Z.of_nat c)) with true by (symmetry; apply Z.ltb_lt; lia). reflexivity.
+    + apply Z.eqb_neq in E.
+      destruct (lo + 1 <=? k) eqn:A, (lo <=? k) eqn:B;
+        try apply Z.leb_le in A; try apply Z.leb_gt in A; try apply Z.leb_le in B; try apply Z.leb_gt in B; try lia.
+      * replace (k <? lo + 1 + Z.of_nat c) with (k <? lo + Z.succ (Z.of_nat c)) by (f_equal; lia). reflexivity.
+      * reflexivity.
 Qed.
 
-Theorem plain_copy_always_bad : forall (tag w set mbox : str) (rest : list str) (total : Z),
-  equal_fold w (S_ "COPY") = true -> plain_copy (tag :: w :: set :: mbox :: rest) total = None.
+Lemma zfirstn_0 {A} (l : list A) : zfirstn 0 l = [].
+Proof. destruct l; reflexivity. Qed.
+
+Lemma zfirstn1_zskipn (l : list Z) : forall j, 0 <= j ->
+  zfirstn 1 (zskipn j l) = if j <? Z.of_nat (length l) then [nth (Z.to_nat j) l 0] else [].
 Proof.
-  intros. unfold plain_copy, copy_set_arg. cbn [length Nat.ltb Nat.leb nth_error].
-  now rewrite copy_word_parse.
+  induction l as [|x l IH]; intros j Hj.
+  - simpl. replace (j <? 0) with false by (symmetry; apply Z.ltb_ge; lia). reflexivity.
+  - cbn [zskipn length]. rewrite Nat2Z.inj_succ. destruct (j <=? 0) eqn:E.
+    + apply Z.leb_le in E. assert (j = 0) by lia. subst j. cbn [zfirstn]. change (1 <=? 0) with false. cbv iota.
+      change (1 - 1) with 0. rewrite zfirstn_0.
+      replace (0 <? Z.succ (Z.of_nat (length l))) with true by (symmetry; apply Z.ltb_lt; lia). reflexivity.
+    + apply Z.leb_gt in E. rewrite IH by lia.
+      replace (j <? Z.succ (Z.of_nat (length l))) with (j - 1 <? Z.of_nat (length l))
+        by (destruct (j - 1 <? Z.of_nat (length l)) eqn:A; symmetry; [apply Z.ltb_lt; apply Z.ltb_lt in A | apply Z.ltb_ge; apply Z.ltb_ge in A]; lia).
+      replace (Z.to_nat j) with (S (Z.to_nat (j - 1))) by lia. reflexivity.
 Qed.
+
+Theorem fetch_single_exact : forall (k : Z) (uids : list Z), 1 <= k < 4294967296 ->
+  fetch_inline (itoa k) uids = Some (expected_fetch [One (Num k)] uids).
+Proof.
+  intros k uids Hk. assert (Hi : in64 k) by (unfold in64, max_int64; lia).
+  pose proof (itoa_digits k Hi) as D.
+  assert (NC : contains_byte (itoa k) c_colon = false) by (apply digits_no_byte; [exact D | reflexivity]).
+  unfold fetch_inline. rewrite (split_byte_nosep _ _ NC). cbv iota beta.
+  assert (E1 : str_eqb (itoa k) (S_ "1:*") = false).
+  { destruct (str_eqb (itoa k) (S_ "1:*")) eqn:E; [|reflexivity]. apply str_eqb_eq in E. rewrite E in NC. discriminate. }
+  assert (E2 : str_eqb (itoa k) s_star = false).
+  { apply (print_num_star_eq (Num k)). cbn [wf_num]. apply andb_true_iff. split; [apply Z.leb_le | apply Z.ltb_lt]; lia. }
+  rewrite E1, E2. cbn [orb]. rewrite atoi_itoa by exact Hi.
+  replace (k <? 1) with false by (symmetry; apply Z.ltb_ge; lia). f_equal.
+  unfold sql_limit_offset. change (1 <? 0) with false. cbv iota. rewrite zfirstn1_zskipn by lia.
+  unfold expected_fetch, addressed, zrange.
+  rewrite (filter_ext _ (fun i => i =? k)) by (intros i; unfold denote; simpl; apply orb_false_r).
+  rewrite filter_eq_zseq.
+  replace (1 <=? k) with true by (symmetry; apply Z.leb_le; lia). cbn [andb].
+  replace (k <? 1 + Z.of_nat (Z.to_nat (Z.of_nat (length uids) - 1 + 1))) with (k - 1 <? Z.of_nat (length uids))
+    by (destruct (k - 1 <? Z.of_nat (length uids)) eqn:A; symmetry; [apply Z.ltb_lt; apply Z.ltb_lt in A | apply Z.ltb_ge; apply Z.ltb_ge in A]; lia).
+  destruct (k - 1 <? Z.of_nat (length uids)); reflexivity.
+Qed.
+
+(** the command word is never a sequence set (why the old dispatch, which handed
+    the handler the word COPY as the set, answered BAD) *)
+Lemma copy_word_is_no_set total : parse_seqset_db (S_ "COPY") total = [].
+Proof. unfold parse_seqset_db. destruct (total =? 0); reflexivity. Qed.
 
 (** ---- EXPUNGE removes exactly the messages carrying the \Deleted atom ---- *)
 Lemma classify_expunge_none mbox : classify_expunge mbox = None ->
